@@ -606,3 +606,30 @@ pub fn floor_gas_used() -> String {
     let r = evm.transact().expect("tx runs");
     format!("gas_used={} floor={}", r.result.gas_used(), floor)
 }
+
+// ---------------------------------------------------------------- the beneficiary receives (effective price - base fee) x gas used
+pub fn reward_amount() -> String {
+    use revm::primitives::TxKind;
+    use revm::Evm;
+    let coinbase = address!("c000000000000000000000000000000000000001");
+    let mut db = CacheDB::new(EmptyDB::default());
+    db.insert_account_info(CALLER, AccountInfo { nonce: 0, balance: U256::from(1_000_000_000u64), code_hash: B256::default(), code: None });
+    let mut evm = Evm::builder()
+        .with_db(db)
+        .with_spec_id(SpecId::CANCUN)
+        .modify_tx_env(|tx| {
+            tx.caller = CALLER;
+            tx.transact_to = TxKind::Call(TARGET);
+            tx.gas_limit = 100_000;
+            tx.gas_price = U256::from(10); // fee cap
+            tx.gas_priority_fee = Some(U256::from(5)); // tip, clipped by the cap: effective = min(10, 7 + 5) = 10
+        })
+        .modify_block_env(|b| {
+            b.coinbase = coinbase;
+            b.basefee = U256::from(7);
+        })
+        .build();
+    let r = evm.transact().expect("tx runs");
+    let got = r.state.get(&coinbase).map(|a| a.info.balance).unwrap_or(U256::ZERO);
+    format!("coinbase_received={} expected={}", got, (10 - 7) * r.result.gas_used())
+}
